@@ -70,6 +70,7 @@ func checkC16(c *core.Ctx) error {
 	}
 	checkCategoricalEstimator(c, p, d)
 	checkRescaleSurvives(c)
+	checkEmWiring(c)
 	c.Analysed["closed_form_estimators"] = len(estTable) + 1
 	// ---- R3 the mixture EM step is the textbook E-step / M-step
 	c.Rule("C16.R3", "the mixture EM step, interpreted symbolically for two components: the returned likelihood is the data log-likelihood of the model of the iteration, the responsibilities are the component posteriors (times observation weight and multiplicity), the new weights are the normalised responsibility sums", 20)
